@@ -29,15 +29,22 @@
      lastTs never decreases between restarts.  (Not proved: the bookkeeping of loadWAL after a restart
      — lastTs = max(0, replayed timestamps) — is tied on generated histories only.)
    * C48_truncate_keeps / C48_truncate_keeps_series / C48_gc_spec / C48_restart_keeps_wal: for ALL database
-     states — DB.truncate(mint) keeps every sample / histogram / exemplar with t >= mint and the series
-     record of every series that survives the garbage collection (exactly the series with a write at or
-     after mint); a restart leaves the WAL contents alone.
+     states — DB.truncate(mint) with wlog.Checkpoint (the default) keeps every sample / histogram /
+     exemplar with t >= mint; with either checkpoint implementation it keeps the series record of every
+     series that survives the garbage collection (exactly the series with a write at or after mint); a
+     restart leaves the WAL contents alone.
+   * C48_inmemory_keeps_last / C48_inmemory_refuted: with Options.CheckpointFromInMemorySeries the
+     checkpoint is rebuilt from memory (agent/checkpoint.go): every surviving series keeps its series
+     record followed by a float sample carrying its last timestamp, but the accepted samples of the
+     checkpointed segments are NOT kept whatever their time — the retention clause of the statement is
+     false for this option, by design of the option (corpus case 3 replays the witness on the real
+     agent DB; the model agrees with it record by record).
    * C48_series_records_partial: in sequential histories every live series has its series record in the
      WAL at every truncation / restart.  With DB.truncate between an append and its commit this fails:
      C48_gc_pending_refuted (corpus case 2; finding agent-gc-pending-series-orphan, the "known
      limitation" comment of getOrCreate).
    * C48_no_queries. *)
-From Coq Require Import List ZArith Bool.
+From Coq Require Import List ZArith Bool Lia.
 From Verif Require Import lib.Int64 model.Checkpoint model.Agent proof.AgentProofs.
 Import ListNotations.
 Open Scope Z_scope.
@@ -142,41 +149,42 @@ Theorem C48_lastts_monotone : forall o st e r s,
   find_id r (d_series (st_db st)) = Some s ->
   match find_id r (d_series (st_db (fst (step o st e)))) with
   | Some s' => s_lab s' = s_lab s /\ s_last s <= s_last s'
-  | None => exists mint, e = ETruncate mint /\ In r (gc_gone mint (d_series (st_db st)))
+  | None => exists mint zv, e = ETruncate mint zv /\ In r (gc_gone mint (d_series (st_db st)))
   end.
 Proof. exact last_monotone. Qed.
 
 (* ---- truncation, checkpointing, restart (all database states) ---- *)
-Theorem C48_truncate_keeps : forall d mint,
+Theorem C48_truncate_keeps : forall o d mint zv,
+  o_inmem o = false ->
   (forall k l x, In (RSamples k l) (wal_records (d_wal d)) -> In x l -> mint <= snd (fst x) ->
-     exists l', In (RSamples k l') (wal_records (d_wal (truncate d mint))) /\ In x l') /\
+     exists l', In (RSamples k l') (wal_records (d_wal (truncate o d mint zv))) /\ In x l') /\
   (forall l x, In (RExemplars l) (wal_records (d_wal d)) -> In x l -> mint <= snd (fst x) ->
-     exists l', In (RExemplars l') (wal_records (d_wal (truncate d mint))) /\ In x l').
+     exists l', In (RExemplars l') (wal_records (d_wal (truncate o d mint zv))) /\ In x l').
 Proof.
-  intros d mint. split; intros.
+  intros o d mint zv HO. split; intros.
   - eapply truncate_keeps_samples; eauto.
   - eapply truncate_keeps_exemplars; eauto.
 Qed.
 
-Theorem C48_truncate_keeps_series : forall d mint r,
-  In r (map s_ref (d_series (truncate d mint))) ->
+Theorem C48_truncate_keeps_series : forall o d mint zv r,
+  In r (map s_ref (d_series (truncate o d mint zv))) ->
   In r (series_refs (wal_records (d_wal d))) ->
-  In r (series_refs (wal_records (d_wal (truncate d mint)))).
+  In r (series_refs (wal_records (d_wal (truncate o d mint zv)))).
 Proof. exact truncate_keeps_series. Qed.
 
-Theorem C48_gc_spec : forall d mint s,
+Theorem C48_gc_spec : forall o d mint zv s,
   In s (d_series d) ->
-  (In s (d_series (truncate d mint)) -> mint <= s_last s) /\
-  (~ In s (d_series (truncate d mint)) -> exists s', In s' (d_series d) /\ s_ref s' = s_ref s /\ s_last s' < mint).
+  (In s (d_series (truncate o d mint zv)) -> mint <= s_last s) /\
+  (~ In s (d_series (truncate o d mint zv)) -> exists s', In s' (d_series d) /\ s_ref s' = s_ref s /\ s_last s' < mint).
 Proof. exact truncate_gc_spec. Qed.
 
-Theorem C48_restart_keeps_wal : forall d, wal_records (d_wal (restart d)) = wal_records (d_wal d).
+Theorem C48_restart_keeps_wal : forall o d, wal_records (d_wal (restart o d)) = wal_records (d_wal d).
 Proof. exact restart_keeps_wal. Qed.
 
 (* every live series has its series record in the WAL whenever DB.truncate / a restart begins
    (sequential histories) *)
 Theorem C48_series_records_partial : forall o es e s,
-  wellformed (es ++ [e]) = true -> (e = ERestart \/ exists m, e = ETruncate m) ->
+  wellformed (es ++ [e]) = true -> (e = ERestart \/ exists m zv, e = ETruncate m zv) ->
   In s (d_series (st_db (run o es))) ->
   In (s_ref s) (series_refs (wal_records (d_wal (st_db (run o es))))).
 Proof. exact live_series_logged. Qed.
@@ -192,6 +200,27 @@ Proof.
   exists o0, ex_gc_pending, (2, 5000, 1).
   destruct gc_pending_refuted as [A [B C]]. split; auto. split; auto.
   exists [(2, 5000, 1)]. rewrite B. simpl. auto.
+Qed.
+
+(* ---- Options.CheckpointFromInMemorySeries (agent/checkpoint.go) ---- *)
+Theorem C48_inmemory_keeps_last : forall o d mint zv last s,
+  o_inmem o = true ->
+  plan_last (w_first (d_wal d)) (w_cur (d_wal d)) = Some last ->
+  In s (d_series (truncate o d mint zv)) ->
+  logged 0 (s_ref s, s_last s, zv) (wal_records (d_wal (truncate o d mint zv))) = true.
+Proof. exact inmem_truncate_keeps_last. Qed.
+
+(* the retention clause is false with this option: a sequential history after which two committed samples at
+   or after the truncation time are no longer in the WAL *)
+Theorem C48_inmemory_refuted :
+  exists o es mint zv k l x,
+    wellformed (es ++ [ETruncate mint zv]) = true /\
+    In (RSamples k l) (wal_records (d_wal (st_db (run o es)))) /\ In x l /\ mint <= snd (fst x) /\
+    forall l', In (RSamples k l') (wal_records (d_wal (st_db (run o (es ++ [ETruncate mint zv]))))) -> ~ In x l'.
+Proof.
+  exists o_im, ex_inmem, 4000, 9, 0, [(1, 5000, 1)], (1, 5000, 1).
+  destruct inmem_refuted as [A [B C]]. rewrite B, C. repeat split; simpl; auto; try lia.
+  intros l' [H|[H|[]]]; [discriminate|]. inversion H; subst. simpl. intros [E|[]]. discriminate.
 Qed.
 
 (* ---- the agent never serves queries ---- *)
@@ -212,7 +241,7 @@ Example C48_nonvacuous :
 Proof. exact ex_seq_facts. Qed.
 
 Example C48_admission_nonvacuous :
-  snd (append_v1 (mkO 100 false) (mkDB 1 [mkS 1 1 1000] [] [] wal_empty) app_empty 0 1 900 5 0 false) = (0, E_OOO, []) /\
-  snd (append_v1 (mkO 100 false) (mkDB 1 [mkS 1 1 1000] [] [] wal_empty) app_empty 0 1 901 5 0 false) = (1, E_OK, []) /\
-  snd (append_v1 (mkO 100 false) (mkDB 0 [] [] [] wal_empty) app_empty 0 1 minInt64 5 0 false) = (0, E_OOO, []).
+  snd (append_v1 (mkO 100 false false) (mkDB 1 [mkS 1 1 1000] [] [] wal_empty []) app_empty 0 1 900 5 0 false) = (0, E_OOO, []) /\
+  snd (append_v1 (mkO 100 false false) (mkDB 1 [mkS 1 1 1000] [] [] wal_empty []) app_empty 0 1 901 5 0 false) = (1, E_OK, []) /\
+  snd (append_v1 (mkO 100 false false) (mkDB 0 [] [] [] wal_empty []) app_empty 0 1 minInt64 5 0 false) = (0, E_OOO, []).
 Proof. vm_compute. auto. Qed.
